@@ -377,7 +377,11 @@ class Exec(Interp):
         for n in sorted(names | set(spec.get('modifies_names', []))):
             if n in shapes:
                 fr_t = self.frame_of(n, fr)
-                fr_t.env[n] = shapes[n].make(self.ctx, n + '!h')
+                sh = shapes[n]
+                if hasattr(sh, 'stream_expr'):
+                    arr = self.pure_eval(gsub(sh.stream_expr), fr).arr
+                    sh.resolve_arr = lambda mk, arr=arr: arr
+                fr_t.env[n] = sh.make(self.ctx, n + '!h')
                 continue
             cur = fr.lookup(n)
             if cur is _MISSING:
@@ -393,7 +397,11 @@ class Exec(Interp):
             if cur is _MISSING:
                 continue
             if n in shapes:
-                self.frame_of(n, fr).env[n] = shapes[n].make(self.ctx, n + '!h')
+                sh = shapes[n]
+                if hasattr(sh, 'stream_expr'):
+                    arr = self.pure_eval(gsub(sh.stream_expr), fr).arr
+                    sh.resolve_arr = lambda mk, arr=arr: arr
+                self.frame_of(n, fr).env[n] = sh.make(self.ctx, n + '!h')
             else:
                 self.frame_of(n, fr).env[n] = self.models.havoc_value(self, cur, n, None, container=True)
         if has_call:
